@@ -124,10 +124,11 @@ def _run_stream(ctx, fn, cases):
 # ---------------------------------------------------------------- computechi2
 def _chi2_tol(chi, b, sq, cond=1e3):
     """how far a correctly rounded sum of squared residuals may be from the exact chi-square: relative to chi-square itself, plus
-    the residual error a backward-stable solve leaves (eps * cond * |b| per point), NOT relative to |b|^2 - a chi-square that
-    is wrong by its own size at high signal-to-noise is wrong"""
+    the residual error the solve leaves - the code solves the NORMAL equations (SVD of M^T M), so eps * cond(M)^2 * |b| per
+    point, cond(M) being the condition number of THIS weighted matrix - NOT relative to |b|^2: a chi-square that is wrong by
+    its own size at high signal-to-noise is wrong"""
     bn = float(np.sqrt(np.sum((b * sq) ** 2)))
-    e = 1e-14 * max(cond, 10.0) * bn
+    e = 1e-14 * max(cond, 3.0) ** 2 * bn
     return TOL * max(chi, 0.0) + 2.0 * e * math.sqrt(max(chi, 0.0)) + e * e + 1e-300
 
 
@@ -142,7 +143,7 @@ def _gen_chi2(g):
         b = A @ rs.standard_normal(m) * g['signal'] + rs.standard_normal(n)
         sq = np.exp(rs.uniform(-1.5, 1.5, size=n))
         zero = rs.uniform(size=n) < g['pzero']
-        if n - zero.sum() < m + 1:
+        if n - zero.sum() < (m + 1 if n > m else m):
             continue
         sq[zero] = 0.0
         if np.linalg.cond(A * sq[:, None]) < 1e3:
@@ -215,7 +216,8 @@ def _chi2_case(ctx, c):
     for k in ('acoeff', 'yfit', 'covar', 'var'):
         if not _near(impl[k], mdl[k], TOL):
             ctx.disagree('chi2:' + k, c, _lst(impl[k]), _lst(mdl[k]))
-    if abs(impl['chi2'] - mdl['chi2']) > _chi2_tol(max(mdl['chi2'], impl['chi2']), b, sq):
+    cnd = float(np.linalg.cond(A * sq[:, None]))
+    if abs(impl['chi2'] - mdl['chi2']) > _chi2_tol(max(mdl['chi2'], impl['chi2']), b, sq, cnd):
         ctx.disagree('chi2:chi2', c, impl['chi2'], mdl['chi2'])
     if impl['dof'] != mdl['dof']:
         ctx.disagree('chi2:dof', c, impl['dof'], mdl['dof'])
@@ -227,8 +229,8 @@ def _chi2_case(ctx, c):
         ctx.violate('chi2:covar', 'covar is not the inverse of A^T W A', full)
     if not _near(impl['var'], np.diag(inve), TOL) or not np.array_equal(impl['var'], np.diag(impl['covar'])):
         ctx.violate('chi2:var', 'var is not the diagonal of the covariance', full)
-    if abs(impl['chi2'] - chie) > _chi2_tol(chie, b, sq):
-        ctx.violate('chi2:chi2', 'chi2 %r differs from the exact minimum %r (tolerance %.3g)' % (impl['chi2'], chie, _chi2_tol(chie, b, sq)), full)
+    if abs(impl['chi2'] - chie) > _chi2_tol(chie, b, sq, cnd):
+        ctx.violate('chi2:chi2', 'chi2 %r differs from the exact minimum %r (tolerance %.3g, cond %.3g)' % (impl['chi2'], chie, _chi2_tol(chie, b, sq, cnd), cnd), full)
     if not _near(impl['yfit'], A @ xe, TOL):
         ctx.violate('chi2:yfit', 'yfit differs from A x', full)
     if impl['dof'] != int((sq > 0).sum()) - m:
@@ -331,6 +333,11 @@ def _chi2(ctx, cases=None):
                                                    'signal': ctx.rng.choice([0.0, 1.0, 10.0, 1e3, 1e6, 1e8])}})
             if ctx.rng.random() < 0.2:
                 cases[-1]['gen']['adtype'] = 'float32'
+        # square full-rank systems (as many data as templates, every weight positive: dof 0, chi2 0, the solution of A x = b)
+        for i in range(ctx.n(20, 400)):
+            m = ctx.rng.choice([1, 2, 3, 4, 5])
+            cases.append({'stream': 'chi2', 'gen': {'nseed': ctx.rng.getrandbits(32), 'n': m, 'm': m, 'kind': 'random', 'pzero': 0.0,
+                                                   'signal': ctx.rng.choice([1.0, 10.0])}})
     _run_stream(ctx, _chi2_case, cases)
 
 
@@ -711,7 +718,7 @@ def _hmf_step(ctx, cases=None):
     _run_stream(ctx, _hmf_step_case, cases)
 
 
-def _solve_once(s, w, K, eps, nn, n_iter, seed):
+def _solve_once(s, w, K, eps, nn, n_iter, seed, disturb=0):
     """HMF(...).solve() with the k-means start recorded; arrays are passed as they are"""
     import scipy.cluster.vq as vq
     rec = {}
@@ -722,6 +729,9 @@ def _solve_once(s, w, K, eps, nn, n_iter, seed):
         rec['g0'] = np.array(out[0], dtype=float, copy=True)
         return out
     h = _mk_hmf(s, w, K, eps, nn, n_iter=n_iter, seed=seed)
+    if disturb:
+        # other code draws from the global generator between construction and solve(): "a fixed seed gives identical results"
+        np.random.random(disturb)
     with mock.patch.object(vq, 'kmeans', spy):
         out = h.solve()
     return h, out, rec.get('g0')
@@ -828,7 +838,7 @@ def _hmf_solve_case(ctx, c):
     if _snap(s1, w1) != before:
         ctx.violate('hmf_solve:caller-arrays-modified:' + mode, 'HMF.solve modified the spectra / invvar arrays of the caller', full)
     # same seed -> identical results
-    h2, out2, g02 = _solve_once(sfull.copy(), wfull.copy(), K, eps, nn, n_iter, seed)
+    h2, out2, g02 = _solve_once(sfull.copy(), wfull.copy(), K, eps, nn, n_iter, seed, disturb=1 + g_['nseed'] % 5)
     if not (np.array_equal(out2['acoeff'], out['acoeff']) and np.array_equal(out2['flux'], out['flux'])):
         ctx.violate('hmf_solve:seed-not-reproducible', 'two runs with seed=%d differ (max |d flux| = %.3g)'
                     % (seed, float(np.max(np.abs(np.array(out2['flux']) - g)))), full)
